@@ -225,3 +225,91 @@ func HarnessC16ConcurrentSend(a []int) {
 	}
 	verifCover("C16.send.concurrent.end")
 }
+
+func init() {
+	verifHarnesses["HarnessC16Close"] = HarnessC16Close
+	verifHarnesses["HarnessC15SendRouter"] = HarnessC15SendRouter
+}
+
+// HarnessC16Close: a = {0 TCP | 1 UDP, frames pending 0..2, reader: 0 reading all the time, 1 starts
+// reading only after Close}: Close on the socket ends the receiver: Inbound is closed (a range loop
+// ends) and the goroutine has returned, provided the application drains what was already decoded.
+func HarnessC16Close(a []int) {
+	udp, pending, late := a[0] == 1, a[1], a[2] == 1
+	var stream []byte
+	var want []ServicePackable
+	for i := 0; i < pending; i++ {
+		v, b := c16Frame(i)
+		want = append(want, v)
+		if udp {
+			verifDatagram(b)
+		} else {
+			stream = append(stream, b...)
+		}
+	}
+	// more traffic that must never surface: Close comes first
+	_, extra := c16Frame(3)
+	inbound := make(chan Service)
+	returned := false
+	var sock Socket
+	if udp {
+		conn := &net.UDPConn{}
+		sock = &RouterSocket{conn: conn, inbound: inbound}
+		go func() {
+			serveUDPSocket(conn, nil, inbound)
+			returned = true
+		}()
+	} else {
+		verifStream(stream, 0, 0)
+		conn := &net.TCPConn{}
+		sock = &TunnelSocket{conn: conn, inbound: inbound}
+		go func() {
+			serveTCPSocket(conn, nil, inbound)
+			returned = true
+		}()
+	}
+	var got []Service
+	ended := false
+	reader := func() {
+		for s := range inbound {
+			got = append(got, s)
+		}
+		ended = true
+	}
+	if !late {
+		go reader()
+	}
+	verifQuiesce()
+	verifAssert("C16.close.ok", sock.Close() == nil)
+	if udp {
+		verifDatagram(extra)
+	}
+	if late {
+		go reader()
+	}
+	verifQuiesce()
+	verifAssert("C16.close.inbound_closed", ended)
+	verifAssert("C16.close.receiver_returned", returned)
+	verifAssert("C16.close.nothing_after_close", len(got) <= pending)
+	for i, s := range got {
+		verifAssert("C16.close.in_order", c16Same(want[i], s))
+	}
+	verifCover("C16.close.end")
+}
+
+// HarnessC15SendRouter: a as HarnessC15Send: RouterSocket.Send hands exactly one datagram of
+// header-total-length bytes to the network.
+func HarnessC15SendRouter(a []int) {
+	v := c15Value(a)
+	sock := &RouterSocket{conn: &net.UDPConn{}, addr: &net.UDPAddr{Port: 3671}}
+	err := sock.Send(v)
+	verifAssert("C15.send.ok", err == nil)
+	verifAssert("C15.send.one_write", verifNetWrites() == 1)
+	w := verifNetWrite(0)
+	verifAssert("C15.send.length", len(w) == int(Size(v)) && int(w[4])<<8|int(w[5]) == len(w))
+	want := AllocAndPack(v)
+	for i := range want {
+		verifAssert("C15.send.bytes", w[i] == want[i])
+	}
+	verifCover("C15.sendrouter.end")
+}
